@@ -35,7 +35,10 @@ func TracingRoundTripper(transport http.RoundTripper, collector Collector) http.
 			builder.add(&RequestCanceled{})
 		}()
 		req = req.Clone(ctx)
-		req.Body = newRequestReader(req.Header, req.Body, true, builder)
+		if req.Body != nil {
+			// A client request without a body (like a GET) may have a nil body.
+			req.Body = newRequestReader(req.Header, req.Body, true, builder)
+		}
 		resp, err := transport.RoundTrip(req)
 		if err != nil {
 			builder.add(&ResponseError{Err: err})
